@@ -73,7 +73,7 @@ def _(c):
 INDEX_CONSUMED = "forall(lambda j: implies(0 <= j < len(%s), %s[j][1] > next_batch.base_offset))" % (A, A)
 
 
-@contract(MOD + ":PartitionRecords._unpack_records", ["C08", "C03"])
+@contract(MOD + ":PartitionRecords._unpack_records", ["C08", "C03", "C04"])
 def _(c):
     c.self_("PartitionRecords")
     c.is_generator = True
